@@ -251,6 +251,19 @@ func runStorm(c Storm) *failure {
 			}
 		}
 	}
+	// everything was delivered and merged: the nodes hold the same records field by field (a
+	// record shared with another goroutine and altered in place after it was announced differs)
+	for r := 0; r < 3; r++ {
+		if cl.DeliverAllGossip() == 0 {
+			break
+		}
+		if err := cl.Settle(); err != nil {
+			return &failure{err.Error(), true}
+		}
+	}
+	if d := cl.SnapshotDiff(); d != "" {
+		return &failure{"replicated records differ after the storm although every broadcast was delivered: " + d, false}
+	}
 	return nil
 }
 
